@@ -43,6 +43,107 @@ fn edge(e: Edge) -> ThrottleEdge {
   }
 }
 
+
+/// the C03 catalogue operators, shared by the plain and the cloneable builder.
+/// Evaluates to Ok(boxed) or Err(source) when `op` is not in the catalogue.
+macro_rules! build_un_c03 {
+  ($bx:ident, $s:expr, $op:expr, $env:expr) => {
+    'blk: {
+      let s = $s;
+      #[allow(unreachable_code)]
+      Ok(match $op {
+          Un::Map(f) => {
+            let (f, cn) = (*f, $env.counters.clone());
+            $bx(s.map(move |v| {
+              lock!(cn).fn_calls += 1;
+              f.eval(v)
+            }))
+          }
+          Un::MapTo(v) => $bx(s.map_to(v.clone())),
+          Un::Filter(p) => {
+            let (p, cn) = (*p, $env.counters.clone());
+            $bx(s.filter(move |v: &V| {
+              lock!(cn).fn_calls += 1;
+              p.eval(v)
+            }))
+          }
+          Un::FilterMap => $bx(s.filter_map(fm_even_half)),
+          Un::Tap => {
+            let cn = $env.counters.clone();
+            $bx(s.tap(move |_: &V| lock!(cn).tap_calls += 1))
+          }
+          Un::Take(n) => $bx(s.take(*n)),
+          Un::Skip(n) => $bx(s.skip(*n)),
+          Un::TakeWhile(p) => {
+            let p = *p;
+            $bx(s.take_while(move |v: &V| p.eval(v)))
+          }
+          Un::TakeWhileInclusive(p) => {
+            let p = *p;
+            $bx(s.take_while_inclusive(move |v: &V| p.eval(v)))
+          }
+          Un::SkipWhile(p) => {
+            let p = *p;
+            $bx(s.skip_while(move |v: &V| p.eval(v)))
+          }
+          Un::TakeLast(n) => $bx(s.take_last(*n)),
+          Un::SkipLast(n) => $bx(s.skip_last(*n)),
+          Un::First => $bx(s.first()),
+          Un::FirstOr(v) => $bx(s.first_or(v.clone())),
+          Un::Last => $bx(s.last()),
+          Un::LastOr(v) => $bx(s.last_or(v.clone())),
+          Un::ElementAt(n) => $bx(s.element_at(*n)),
+          Un::IgnoreElements => $bx(s.ignore_elements()),
+          Un::StartWith(vs) => $bx(s.start_with(vs.clone())),
+          Un::DefaultIfEmpty(v) => $bx(s.default_if_empty(v.clone())),
+          Un::Scan(f, seed) => {
+            let (f, cn) = (*f, $env.counters.clone());
+            $bx(s.scan_initial(seed.clone(), move |a: V, v: V| {
+              lock!(cn).fn_calls += 1;
+              f.eval(a, v)
+            }))
+          }
+          Un::Reduce(f, seed) => {
+            let f = *f;
+            $bx(s.reduce_initial(seed.clone(), move |a: V, v: V| f.eval(a, v)))
+          }
+          Un::Count => $bx(s.count().map(|n: usize| V::I(n as i64))),
+          Un::Sum => $bx(s.map(|v: V| to_i(&v)).sum().map(V::I)),
+          Un::Min => $bx(s.min()),
+          Un::Max => $bx(s.max()),
+          Un::Average => $bx(
+            s.map(|v: V| to_i(&v) as f64)
+              .average()
+              .map(|x: f64| V::I((x * 1000.0).round() as i64)),
+          ),
+          Un::Distinct => $bx(s.distinct()),
+          Un::DistinctKey(k) => {
+            let k = *k;
+            $bx(s.distinct_key(move |v: &V| k.eval(v)))
+          }
+          Un::DistinctUntilChanged => $bx(s.distinct_until_changed()),
+          Un::DistinctUntilKeyChanged(k) => {
+            let k = *k;
+            $bx(s.distinct_until_key_changed(move |v: &V| k.eval(v)))
+          }
+          Un::Pairwise => $bx(s.pairwise().map(|(a, b): (V, V)| pair(a, b))),
+          Un::BufferWithCount(n) => $bx(s.buffer_with_count(*n).map(V::L)),
+          Un::Contains(v) => $bx(s.contains(v.clone()).map(V::B)),
+          Un::All(p) => {
+            let p = *p;
+            $bx(s.all(move |v: V| p.eval(&v)).map(V::B))
+          }
+          Un::Collect => $bx(s.collect::<Vec<V>>().map(V::L)),
+          Un::OnErrorMap(k) => {
+            let k = *k;
+            $bx(s.on_error_map(move |e: E| E(e.0.wrapping_add(k))))
+          }
+        _ => break 'blk Err(s),
+      })
+    }
+  };
+}
+
 pub fn build_src(s: &Src, env: &Env) -> Bx {
   match s {
     Src::Of(v) => bx(observable::of(v.clone()).on_error_map(inf as InfFn)),
@@ -107,7 +208,224 @@ pub fn build_src(s: &Src, env: &Env) -> Bx {
       bx(observable::interval(ticks(*p), VSched).map(|n: usize| V::I(n as i64)).on_error_map(inf as InfFn))
     }
     Src::Timer(v, d) => bx(observable::timer(v.clone(), ticks(*d), VSched).on_error_map(inf as InfFn)),
+    Src::FutureReady(v) => bx(
+      observable::from_future(CountingFut { v: Some(v.clone()), cn: env.counters.clone() }, VSched).on_error_map(inf as InfFn),
+    ),
   }
+}
+
+/// a future that is ready at its first poll and counts its polls
+#[derive(Clone)]
+pub struct CountingFut {
+  v: Option<V>,
+  cn: Sh<Counters>,
+}
+impl std::future::Future for CountingFut {
+  type Output = V;
+  fn poll(mut self: std::pin::Pin<&mut Self>, _: &mut std::task::Context<'_>) -> std::task::Poll<V> {
+    lock!(self.cn).fut_polls += 1;
+    std::task::Poll::Ready(self.v.take().expect("future polled after completion"))
+  }
+}
+
+#[inline]
+pub fn cbx<T: BoxIt<CBx>>(t: T) -> CBx {
+  t.box_it()
+}
+
+/// cloneable build of a cold chain (C13); None when a node has no cloneable form
+pub fn build_clone(node: &Node, env: &Env) -> Option<CBx> {
+  match node {
+    Node::Src(s) => Some(match s {
+      Src::Of(v) => cbx(observable::of(v.clone()).on_error_map(inf as InfFn)),
+      Src::OfOption(o) => cbx(observable::of_option(o.clone()).on_error_map(inf as InfFn)),
+      Src::OfResult(r) => cbx(observable::of_result(r.clone())),
+      Src::OfFn(v) => {
+        let (v, cn) = (v.clone(), env.counters.clone());
+        cbx(
+          observable::of_fn(move || {
+            lock!(cn).src_calls += 1;
+            v
+          })
+          .on_error_map(inf as InfFn),
+        )
+      }
+      Src::Start(v) => {
+        let (v, cn) = (v.clone(), env.counters.clone());
+        cbx(
+          observable::start(move || {
+            lock!(cn).src_calls += 1;
+            v
+          })
+          .on_error_map(inf as InfFn),
+        )
+      }
+      Src::FromIter(vs) => cbx(observable::from_iter(vs.clone()).on_error_map(inf as InfFn)),
+      Src::Repeat(v, n) => cbx(observable::repeat(v.clone(), *n).on_error_map(inf as InfFn)),
+      Src::Empty => cbx(ObservableExt::<V, Infallible>::on_error_map(observable::empty(), inf as InfFn)),
+      Src::Never => cbx(observable::never().map(|_: ()| V::U).on_error_map(inf as InfFn)),
+      Src::Throw(e) => cbx(observable::throw(e.clone()).map(|_: ()| V::U)),
+      Src::Create(script) => {
+        let (script, cn) = (script.clone(), env.counters.clone());
+        cbx(observable::create(move |s: Subr| {
+          lock!(cn).src_calls += 1;
+          let mut hs = [s.clone(), s];
+          for (h, ev) in script {
+            let h = (h as usize) % 2;
+            match ev {
+              Ev::N(v) => hs[h].next(v),
+              Ev::Er(e) => hs[h].clone().error(e),
+              Ev::C => hs[h].clone().complete(),
+            }
+          }
+        }))
+      }
+      Src::Defer(inner) => {
+        let (inner, env2) = ((**inner).clone(), env.clone());
+        build_clone(&inner, env)?; // must itself be cloneable
+        cbx(observable::defer(move || {
+          lock!(env2.counters).src_calls += 1;
+          build_clone(&inner, &env2).unwrap()
+        }))
+      }
+      Src::FutureReady(v) => cbx(
+        observable::from_future(CountingFut { v: Some(v.clone()), cn: env.counters.clone() }, VSched).on_error_map(inf as InfFn),
+      ),
+      _ => return None,
+    }),
+    Node::Un(op, _, inner) => {
+      let s = build_clone(inner, env)?;
+      match build_un_c03!(cbx, s, op, env) {
+        Ok(b) => Some(b),
+        Err(_) => None,
+      }
+    }
+    _ => None,
+  }
+}
+
+/// probe that subscribes another clone of the pipeline from inside its first `next`
+pub struct NestProbe {
+  pub outer: Probe,
+  pub nested: Option<(CBx, Probe)>,
+}
+impl Observer<V, E> for NestProbe {
+  fn next(&mut self, v: V) {
+    self.outer.next(v);
+    if let Some((p, probe)) = self.nested.take() {
+      let _ = p.actual_subscribe(probe);
+    }
+  }
+  fn error(self, e: E) {
+    self.outer.error(e)
+  }
+  fn complete(self) {
+    self.outer.complete()
+  }
+  fn is_finished(&self) -> bool {
+    false
+  }
+}
+
+pub struct ColdRun {
+  pub counters_after_build: Counters,
+  pub counters_end: Counters,
+  /// one trace per successive subscription
+  pub traces: Vec<Vec<Ev>>,
+  pub nested: Option<Vec<Ev>>,
+}
+
+/// C13: build once, clone, subscribe `n` clones successively (the first one
+/// optionally subscribing a further clone from inside its first callback)
+pub fn exec_cold(node: &Node, n: usize, nested: bool) -> Option<ColdRun> {
+  crate::vtime::reset(crate::vtime::Mode::Fifo);
+  crate::stamp::set(crate::stamp::AT_SUBSCRIBE);
+  let env = Env::new(1);
+  let p = build_clone(node, &env)?;
+  let counters_after_build = lock!(env.counters).clone();
+  let mut traces = vec![];
+  let mut nested_probe = None;
+  for i in 0..n {
+    let probe = Probe::new();
+    let c = p.clone();
+    if i == 0 && nested {
+      let np = Probe::new();
+      nested_probe = Some(np.clone());
+      let _ = c.actual_subscribe(NestProbe { outer: probe.clone(), nested: Some((p.clone(), np)) });
+    } else {
+      let _ = c.actual_subscribe(probe.clone());
+    }
+    crate::vtime::run_until_stalled();
+    traces.push(probe.events());
+  }
+  let counters_end = lock!(env.counters).clone();
+  Some(ColdRun { counters_after_build, counters_end, traces, nested: nested_probe.map(|p| p.events()) })
+}
+
+// ------------------------------------------------------------- group_by ----
+
+pub struct GroupProbe {
+  log: Sh<Vec<(i64, usize, Ev)>>,
+}
+pub struct TagProbe {
+  key: i64,
+  log: Sh<Vec<(i64, usize, Ev)>>,
+}
+impl Observer<V, E> for TagProbe {
+  fn next(&mut self, v: V) {
+    lock!(self.log).push((self.key, crate::stamp::get(), Ev::N(v)))
+  }
+  fn error(self, e: E) {
+    lock!(self.log).push((self.key, crate::stamp::get(), Ev::Er(e)))
+  }
+  fn complete(self) {
+    lock!(self.log).push((self.key, crate::stamp::get(), Ev::C))
+  }
+  fn is_finished(&self) -> bool {
+    false
+  }
+}
+impl Observer<rxrust::ops::group_by::KeyObservable<i64, Subj>, E> for GroupProbe {
+  fn next(&mut self, g: rxrust::ops::group_by::KeyObservable<i64, Subj>) {
+    let key = g.key;
+    // the stream of groups is logged under key -1; the item is the group's key
+    lock!(self.log).push((-1, crate::stamp::get(), Ev::N(V::I(key))));
+    let _ = g.actual_subscribe(TagProbe { key, log: self.log.clone() });
+  }
+  fn error(self, e: E) {
+    lock!(self.log).push((-1, crate::stamp::get(), Ev::Er(e)))
+  }
+  fn complete(self) {
+    lock!(self.log).push((-1, crate::stamp::get(), Ev::C))
+  }
+  fn is_finished(&self) -> bool {
+    false
+  }
+}
+
+/// C20: run group_by over a cold (`create`) or hot (Subject) source with a probe
+/// attached to each group as it is announced; returns the global log
+/// (group key | -1 for the stream of groups, step, notification)
+pub fn exec_group_by(hot: bool, script: &[Ev], key: KeyF) -> Vec<(i64, usize, Ev)> {
+  crate::vtime::reset(crate::vtime::Mode::Fifo);
+  crate::stamp::set(crate::stamp::AT_SUBSCRIBE);
+  let env = Env::new(1);
+  let log = sh(Vec::new());
+  let src = if hot {
+    Node::Src(Src::Hot(0))
+  } else {
+    Node::Src(Src::Create(script.iter().map(|e| (0u8, e.clone())).collect()))
+  };
+  let s = build(&src, &env);
+  let _sub = s.group_by::<_, _, Subj>(move |v: &V| key.eval(v)).actual_subscribe(GroupProbe { log: log.clone() });
+  if hot {
+    for (k, ev) in script.iter().enumerate() {
+      crate::stamp::set(k);
+      emit(&env, InputKind::Subject, 0, ev);
+    }
+  }
+  let r = lock!(log).clone();
+  r
 }
 
 pub fn build(node: &Node, env: &Env) -> Bx {
@@ -144,84 +462,18 @@ pub fn build(node: &Node, env: &Env) -> Bx {
       let s = build(inner, env);
       let tf = *tf;
       let _ = tf;
+      let s = match build_un_c03!(bx, s, op, env) {
+        Ok(b) => return b,
+        Err(s) => s,
+      };
       match op {
-        Un::Map(f) => {
-          let f = *f;
-          bx(s.map(move |v| f.eval(v)))
-        }
-        Un::MapTo(v) => bx(s.map_to(v.clone())),
-        Un::Filter(p) => {
-          let p = *p;
-          bx(s.filter(move |v: &V| p.eval(v)))
-        }
-        Un::FilterMap => bx(s.filter_map(fm_even_half)),
-        Un::Tap => {
-          let cn = env.counters.clone();
-          bx(s.tap(move |_: &V| lock!(cn).tap_calls += 1))
-        }
-        Un::Take(n) => bx(s.take(*n)),
-        Un::Skip(n) => bx(s.skip(*n)),
-        Un::TakeWhile(p) => {
-          let p = *p;
-          bx(s.take_while(move |v: &V| p.eval(v)))
-        }
-        Un::TakeWhileInclusive(p) => {
-          let p = *p;
-          bx(s.take_while_inclusive(move |v: &V| p.eval(v)))
-        }
-        Un::SkipWhile(p) => {
-          let p = *p;
-          bx(s.skip_while(move |v: &V| p.eval(v)))
-        }
-        Un::TakeLast(n) => bx(s.take_last(*n)),
-        Un::SkipLast(n) => bx(s.skip_last(*n)),
-        Un::First => bx(s.first()),
-        Un::FirstOr(v) => bx(s.first_or(v.clone())),
-        Un::Last => bx(s.last()),
-        Un::LastOr(v) => bx(s.last_or(v.clone())),
-        Un::ElementAt(n) => bx(s.element_at(*n)),
-        Un::IgnoreElements => bx(s.ignore_elements()),
-        Un::StartWith(vs) => bx(s.start_with(vs.clone())),
-        Un::DefaultIfEmpty(v) => bx(s.default_if_empty(v.clone())),
-        Un::Scan(f, seed) => {
-          let f = *f;
-          bx(s.scan_initial(seed.clone(), move |a: V, v: V| f.eval(a, v)))
-        }
-        Un::Reduce(f, seed) => {
-          let f = *f;
-          bx(s.reduce_initial(seed.clone(), move |a: V, v: V| f.eval(a, v)))
-        }
-        Un::Count => bx(s.count().map(|n: usize| V::I(n as i64))),
-        Un::Sum => bx(s.map(|v: V| to_i(&v)).sum().map(V::I)),
-        Un::Min => bx(s.min()),
-        Un::Max => bx(s.max()),
-        Un::Average => bx(
-          s.map(|v: V| to_i(&v) as f64)
-            .average()
-            .map(|x: f64| V::I((x * 1000.0).round() as i64)),
-        ),
-        Un::Distinct => bx(s.distinct()),
-        Un::DistinctKey(k) => {
-          let k = *k;
-          bx(s.distinct_key(move |v: &V| k.eval(v)))
-        }
-        Un::DistinctUntilChanged => bx(s.distinct_until_changed()),
-        Un::DistinctUntilKeyChanged(k) => {
-          let k = *k;
-          bx(s.distinct_until_key_changed(move |v: &V| k.eval(v)))
-        }
-        Un::Pairwise => bx(s.pairwise().map(|(a, b): (V, V)| pair(a, b))),
-        Un::BufferWithCount(n) => bx(s.buffer_with_count(*n).map(V::L)),
-        Un::Contains(v) => bx(s.contains(v.clone()).map(V::B)),
-        Un::All(p) => {
-          let p = *p;
-          bx(s.all(move |v: V| p.eval(&v)).map(V::B))
-        }
-        Un::Collect => bx(s.collect::<Vec<V>>().map(V::L)),
-        Un::OnErrorMap(k) => {
-          let k = *k;
-          bx(s.on_error_map(move |e: E| E(e.0.wrapping_add(k))))
-        }
+        // (C03 catalogue handled by build_un_c03!)
+        Un::Map(_) | Un::MapTo(_) | Un::Filter(_) | Un::FilterMap | Un::Tap | Un::Take(_) | Un::Skip(_) | Un::TakeWhile(_)
+        | Un::TakeWhileInclusive(_) | Un::SkipWhile(_) | Un::TakeLast(_) | Un::SkipLast(_) | Un::First | Un::FirstOr(_) | Un::Last
+        | Un::LastOr(_) | Un::ElementAt(_) | Un::IgnoreElements | Un::StartWith(_) | Un::DefaultIfEmpty(_) | Un::Scan(..)
+        | Un::Reduce(..) | Un::Count | Un::Sum | Un::Min | Un::Max | Un::Average | Un::Distinct | Un::DistinctKey(_)
+        | Un::DistinctUntilChanged | Un::DistinctUntilKeyChanged(_) | Un::Pairwise | Un::BufferWithCount(_) | Un::Contains(_)
+        | Un::All(_) | Un::Collect | Un::OnErrorMap(_) => unreachable!(),
         Un::TrackLive => unreachable!(),
         Un::OnError => {
           let cn = env.counters.clone();
